@@ -1,4 +1,5 @@
 import Driver.Proto
+import Driver.Select
 /-!
 # Model driver: one JSON request per line on stdin → one canonical JSON answer per line on stdout.
 -/
@@ -66,6 +67,8 @@ def handle (line : String) : String :=
       let op ← getStr (← field j "op")
       if op.startsWith "var." || op.startsWith "decl." then handleVars op j
       else if op.startsWith "task." then handleTask op j
+      else if op.startsWith "sel." then handleSel op j
+      else if op.startsWith "loop." then handleLoop op j
       else err s!"unknown op {op}"
     match r with
     | .ok v => v.compress
